@@ -16,7 +16,7 @@ US = dt.timedelta(microseconds=1)
 DAY = dt.timedelta(days=1)
 TZ = "US/Pacific"
 
-UNIT_S = {"s": 1, "sec": 1, "seconds": 1, "": 1, "m": 60, "min": 60, "minutes": 60, "h": 3600, "hr": 3600, "hours": 3600, "d": 86400, "day": 86400, "days": 86400, "w": 604800, "week": 604800}
+UNIT_S = {"s": 1, "sec": 1, "seconds": 1, "": 1, "m": 60, "min": 60, "minutes": 60, "h": 3600, "hr": 3600, "hour": 3600, "hours": 3600, "mins": 60, "minute": 60, "second": 1, "weeks": 604800, "d": 86400, "day": 86400, "days": 86400, "w": 604800, "week": 604800}
 
 
 def td(seconds):
